@@ -10,7 +10,7 @@
    clause, exact on the lattice.  Factor is the value-type decision table.                      *)
 EXTENDS Integers, Sequences, FiniteSets, TLC
 
-CONSTANTS Dirs, Pols, VTypes, Classes
+CONSTANTS Dirs, Pols, VTypes, Classes, Rot2
 
 VARIABLES cs, last
 vars == <<cs, last>>
@@ -35,9 +35,16 @@ Respond == /\ last.op = "Init"
            /\ LET z == Apply(cs.rot, E3)  x == Apply(cs.rot, E1)
                   d == Apply(cs.rot, cs.d)  p == Apply(cs.rot, cs.p)
               IN last' = [op |-> "Respond", z |-> z, x |-> x, d |-> d, p |-> p,
-                          frame |-> Frame(z, x, d), polz |-> Dot(p, z), factor |-> Factor(cs.vt)]
+                          frame |-> Frame(z, x, d), polz |-> Dot(p, z), polx |-> Dot(p, x), factor |-> Factor(cs.vt)]
            /\ UNCHANGED cs
-Next == Respond
+(* the same antenna object is then re-oriented to the axes of a second rotation while direction and polarization
+   stay: the response must follow the new axes (no state of the old orientation may survive) *)
+Reorient(r2) == /\ last.op = "Respond"
+                /\ LET z == Apply(r2, E3)  x == Apply(r2, E1) IN
+                   last' = [op |-> "Reorient", z |-> z, x |-> x, d |-> last.d, p |-> last.p,
+                            frame |-> Frame(z, x, last.d), polz |-> Dot(last.p, z), polx |-> Dot(last.p, x), factor |-> last.factor]
+                /\ UNCHANGED cs
+Next == Respond \/ \E r2 \in Rot2 : Reorient(r2)
 Spec == Init /\ [][Next]_vars
 
 GroupSize == Cardinality(Rotations) = 24
